@@ -85,6 +85,7 @@ type hsClient struct {
 	Debug      int  // 0 plain Dialer.Upgrade, 1 DebugDialer (both callbacks), 2 OnRequest only, 3 OnResponse only, 4 plain Dialer.Dial
 	Wrap       bool // Dial paths: the application installs its own WrapConn
 	Reuse      bool // DebugDialer: the same value has already been used for an earlier Dial
+	TLS        bool // wss:// through Dialer.TLSClient: a reversible byte scrambler stands in for the secure layer (Dial paths only)
 	Odd        bool // the extra header has a name net/http refuses (ws.Upgrader hands it to OnHeader like any other)
 }
 
@@ -223,7 +224,7 @@ func (c hsClient) String() string {
 	for _, e := range c.Exts {
 		xs = append(xs, e.String())
 	}
-	return fmt.Sprintf("client{protocols=%q exts=%q hdr=%dB host=%q rbuf=%d wbuf=%d url=%s debug=%d}", c.Protocols, xs, len(c.Header), c.Host, c.RBuf, c.WBuf, c.URL, c.Debug)
+	return fmt.Sprintf("client{protocols=%q exts=%q hdr=%dB host=%q rbuf=%d wbuf=%d url=%s debug=%d wrap=%v}", c.Protocols, xs, len(c.Header), c.Host, c.RBuf, c.WBuf, c.URL, c.Debug, c.Wrap)
 }
 
 func (s hsServer) String() string {
@@ -255,6 +256,36 @@ type hsOutcome struct {
 
 // recConn is an application-level WrapConn result that records what passes
 // through it.
+// xorConn stands in for a secure layer: what travels below it is every byte
+// XOR 0x5a. Whoever looks at the bytes below it sees no HTTP.
+type xorConn struct{ net.Conn }
+
+func scramble(b []byte) []byte {
+	out := make([]byte, len(b))
+	for i, x := range b {
+		out[i] = x ^ 0x5a
+	}
+	return out
+}
+
+func (c *xorConn) Read(p []byte) (int, error) {
+	n, err := c.Conn.Read(p)
+	for i := 0; i < n; i++ {
+		p[i] ^= 0x5a
+	}
+	return n, err
+}
+
+func (c *xorConn) Write(p []byte) (int, error) { return c.Conn.Write(scramble(p)) }
+
+// wire is what b looks like on the client's transport.
+func (c hsClient) wire(b []byte) []byte {
+	if c.TLS && c.Debug != 0 { // Upgrade on a given conn (Debug 0) involves no TLSClient
+		return scramble(b)
+	}
+	return b
+}
+
 type recConn struct {
 	net.Conn
 	read, written []byte
@@ -467,6 +498,9 @@ func (c hsClient) dialer() ws.Dialer {
 	if c.Header != "" {
 		d.Header = ws.HandshakeHeaderString(c.Header)
 	}
+	if c.TLS {
+		d.TLSClient = func(conn net.Conn, hostname string) net.Conn { return &xorConn{Conn: conn} }
+	}
 	return d
 }
 
@@ -550,7 +584,7 @@ func runClientConn(r *eng.Run, c hsClient, p net.Conn, sent func() []byte, restL
 		}
 	}
 	o.Protocol, o.Exts = hs.Protocol, hs.Extensions
-	o.Written = sent()
+	o.Written = c.wire(sent())
 	o.Head = o.Written
 	if o.Err == nil {
 		var src io.Reader = conn
@@ -627,7 +661,7 @@ func roundTrip(r *eng.Run, c hsClient, s hsServer, rseed int64, segS, segC int) 
 	t.Request = append([]byte(nil), first.Written...)
 	t.Server = runServer(r, s, pipeFor(r, t.Request, segS))
 	rand.Seed(rseed)
-	t.Client = runClient(r, c, pipeFor(r, t.Server.Written, segC))
+	t.Client = runClient(r, c, pipeFor(r, c.wire(t.Server.Written), segC))
 	if !bytes.Equal(t.Client.Written, t.Request) {
 		// Same configuration, same nonce source: on the unchanged tree the two
 		// requests are byte-identical in every run; a difference means the
@@ -648,6 +682,9 @@ func roundTripTasks(r *eng.Run, c hsClient, s hsServer, rseed int64) (cl, sv *hs
 	}
 	cc, sc := sch.Pipe(r.T.Int(sim.LSegMode, 3))
 	crec, srec := &recConn{Conn: cc}, &recConn{Conn: sc}
+	if c.TLS {
+		srec = &recConn{Conn: &xorConn{Conn: sc}} // the server's end of the secure layer
+	}
 	rand.Seed(rseed)
 	var cpanic, spanic interface{}
 	sch.Go(func() {
@@ -829,6 +866,11 @@ func checkWrappers(r *eng.Run, t *hsTrip) {
 // transport chunking.
 func C11(r *eng.Run) {
 	c, s := drawHS(r)
+	if c.Debug != 0 && r.T.Chance(sim.LCfg, 1, 4) {
+		c.TLS = true
+		c.URL = "wss" + strings.TrimPrefix(c.URL, "ws")
+		r.Probe("dial_wss_through_tls_client")
+	}
 	r.SetEntry(fmt.Sprintf("dialer%d-upgrader%d", minInt(c.Debug, 1), s.Kind))
 	rseed := int64(r.T.U32(sim.LMisc))
 	segS, segC := DrawSeg(r), DrawSeg(r)
@@ -882,7 +924,7 @@ func C11(r *eng.Run) {
 	base := runServer(r, sb, pipeFor(r, t.Request, SegAll))
 	compareOutcome(r, "upgrader", base, t.Server, fmt.Sprintf("one segment/default buffers vs seg=%d rbuf=%d wbuf=%d", segS, s.RBuf, s.WBuf), t)
 	rand.Seed(rseed)
-	cbase := runClient(r, cb, pipeFor(r, t.Server.Written, SegAll))
+	cbase := runClient(r, cb, pipeFor(r, cb.wire(t.Server.Written), SegAll))
 	compareOutcome(r, "dialer", cbase, t.Client, fmt.Sprintf("one segment/default buffers vs seg=%d rbuf=%d wbuf=%d", segC, c.RBuf, c.WBuf), t)
 }
 
